@@ -30,11 +30,15 @@ def programs(tier):
                  seed_=seed() * 31 + 5, timeout=3000)
     r2 = run_tlc("Gen_Flow", cfg="Gen_Flow_sim", simulate=nflow, depth=40, workers=4,
                  seed_=seed() * 17 + 3, timeout=3000, heap="6g")
-    texts = [c["text"] for c in r1.tagged("CASE")]
+    rb, _ = tlc_generate("Gen_Branch"), None
+    re_, _ = tlc_generate("Gen_Ecall"), None
+    texts = [c["text"] for c in rb[0]] + [c["text"] for c in re_[0]]
+    texts += [c["text"] for c in r1.tagged("CASE")]
     texts += [c["text"] for c in r2.tagged("CASE") if c["shape"] == "forced"]
     texts += list(corpus.all_programs().values())
     texts += corpus.VALUE_PROGRAMS
-    return list(dict.fromkeys(texts)), [r1, r2]
+    texts += corpus.EXIT_PROGRAMS + corpus.STACK_PROGRAMS
+    return list(dict.fromkeys(texts)), [r1, r2, rb[1], re_[1]]
 
 
 def observe(rvh, texts, wd, name):
